@@ -47,9 +47,6 @@ func runC27(c *core.Ctx) {
 		c.ExpectAtLeast("cache-state maps with analysed writes", len(written), 3)
 	})
 
-	open := c.Fn("kvdb/cachedproducer.openDB")
-	nameParam := open.ParamNamed("name")
-
 	// refCounter[k]++, refCounter[k] += 1, refCounter[k] = refCounter[k] + 1 — written in openDB or in a
 	// module function it calls (see c27Effect)
 	incEffect := c27NewEffect(opened, func(f *core.FuncInfo, a assignment) (ast.Expr, bool) {
@@ -86,10 +83,11 @@ func runC27(c *core.Ctx) {
 		}
 		return ix.Index, true
 	})
-	isName := func(e ast.Expr) bool { return nameParam != nil && varOf(open, resolveLocal(open, e)) == nameParam }
-
-	c.Clause("C27.open", func() {
-		c.Need(nameParam != nil, "openDB has a name parameter")
+	// the caching open is located by what it does (see c27Openers): it may be a function over the state,
+	// a method of the state or of a producer
+	checkOpen := func(open *core.FuncInfo, nameParam *types.Var) {
+		isName := func(e ast.Expr) bool { return nameParam != nil && varOf(open, resolveLocal(open, e)) == nameParam }
+		c.Need(nameParam != nil, "the opening function has a parameter carrying the name")
 		incs, bad := incEffect.sites(open, 2)
 		if bad != "" {
 			c.Undecided("open counted", "T7 Pairing", open.Pos(), "cannot tell on which paths openDB increments the reference counter: "+bad)
@@ -188,7 +186,16 @@ func runC27(c *core.Ctx) {
 			}
 		}
 		c.Check(okND, "every open re-arms the drop", "T2 Dominates", open.Pos(), "notDropped[name] = true dominates every successful return", "an open can succeed without marking the name droppable")
+	}
+	var openers []c27Opener
+	c.Clause("C27.open", func() {
+		openers = c27Openers(p, incEffect)
+		c.Need(len(openers) > 0, "a function of the cachedproducer package that opens the wrapped producer's database")
 	})
+	for _, o := range openers {
+		o := o
+		c.Clause("C27.open", func() { checkOpen(o.f, o.name) })
+	}
 
 	// the two closures
 	// (the StoreWithFn literal may be built in openDB or in a helper of the package)
